@@ -117,6 +117,17 @@ def native_replay(h, prop, workdir):
     if nat is None:
         return {'outcome': 'no-twin', 'output': 'harness declares no native twin'}
     texts = [h.text] + [open(os.path.join(core.VERIF, e)).read() for e in h.extra_src]
+    # harness bodies shared through headers of the spec directory (#include "c01_xxx.h") declare V_DECL / V_FILL inputs too
+    seen = set()
+    def add_includes(text):
+        for mo in re.finditer(r'^\s*#\s*include\s+"([^"]+)"', text, re.M):
+            cand = os.path.join(os.path.dirname(h.path), mo.group(1))
+            if os.path.isfile(cand) and cand not in seen:
+                seen.add(cand)
+                t = open(cand).read()
+                texts.append(t)
+                add_includes(t)
+    add_includes(h.text)
     scalars, structs = extract(prop.get('trace'), texts)
     os.makedirs(workdir, exist_ok=True)
     open(os.path.join(workdir, 'replay_values.h'), 'w').write(values_header(scalars, structs))
@@ -128,7 +139,7 @@ def native_replay(h, prop, workdir):
     for k, tu in enumerate(nat.get('tus', h.tus)):
         path = os.path.join(core.REPO, tu)
         text = open(path).read()
-        injs = [i for i in h.injections if i.get('file') == tu and i['kind'] in ('inject', 'prelude')] if nat.get('inject') else []
+        injs = [i for i in h.injections if i.get('file') == tu and i['kind'] in ('inject', 'prelude', 'extract')] if nat.get('inject') else []
         if injs:
             # ghost statements the harness depends on (e.g. the one-instruction step counter) are needed natively too:
             # same injector, same identity proof as for the CBMC build
